@@ -19,21 +19,30 @@ HARNESSES = {
     'k_chrono_order': ('K-chrono', [('A-date.order', 'axiom ax_order and Sub/num_days sign on the real chrono')]),
     'k_chrono_succ': ('K-chrono', [('A-date.succ', 'num_days is additive along succ_opt')]),
     'k_chrono_sub_days': ('K-chrono', [('C19.day_arith', 'checked_sub_signed(days(k)), k in 1..=7, is the date k days earlier for every date')]),
-    'k_window_edges': ('K-chrono', [('C01.window_edges', 'with the tests as written in match_bed_and_breakfast: D+30 accepted, D+31 and D (or earlier) rejected, for every D')]),
+    'k_chrono_sub_is_day_difference_bounded': ('K-chrono', [('A-date.sub', 'BOUNDED (years 1890..=2110): (a - b).num_days() is the difference of day numbers')]),
+    'k_window_logic': ('K-window', [('C01.window_edges', 'the two day-difference tests of match_bed_and_breakfast accept exactly 1..=30 days (every i64)')]),
+    'k_window_days_diff': ('K-chrono', [('C01.window_days', 'days_diff as computed in match_bed_and_breakfast equals k for the date k days after D, every D, k in -3..=35')]),
 }
+# harnesses that take minutes (two symbolic dates / date arithmetic): thorough tier only
+SLOW = {'k_chrono_succ', 'k_chrono_order', 'k_chrono_sub_days', 'k_chrono_sub_is_day_difference_bounded', 'k_window_days_diff'}
 # which harnesses decide / support which property
 PROP_HARNESSES = {
     'C07': ['k_taxyear_from_date', 'k_taxyear_new_and_bounds', 'k_taxyear_window', 'k_filter_window_eq_from_date', 'k_explain_year_eq_from_date',
             'k_chrono_ymd_roundtrip', 'k_chrono_april', 'k_chrono_order'],
-    'C01': ['k_window_edges', 'k_chrono_order', 'k_chrono_succ'],
-    'C12': ['k_window_edges'],
+    'C01': ['k_window_logic', 'k_window_days_diff', 'k_chrono_order', 'k_chrono_succ', 'k_chrono_sub_is_day_difference_bounded'],
+    'C12': ['k_window_logic', 'k_window_days_diff'],
     'C19': ['k_chrono_sub_days', 'k_chrono_order'],
 }
 
 
-def units_for(pid):
+def units_for(pid, tier='quick'):
     hs = PROP_HARNESSES.get(pid, [])
+    if tier != 'thorough': hs = [h for h in hs if h not in SLOW]
     return [hs] if hs else []
+
+
+def skipped_for(pid, tier):
+    return [h for h in PROP_HARNESSES.get(pid, []) if h in SLOW] if tier != 'thorough' else []
 
 
 def _stmt(src, start_pat, what):
